@@ -7,7 +7,13 @@ PROP = dict(
                     "implementations, and generated chains served through the real JSON-RPC stack (v0_9, v0_10, both state backends); every "
                     "accepted proof is compared with an explicit model. Samples the input space, does not prove absence. Hash primitives "
                     "(Pedersen, Poseidon) are trusted."),
-        rule=("TestPropTrieProofs: key sets over a pool (height 251: universe stems or dense low-bit subtrees with branches; heights 8 and 3 "
+        rule=("Value pools with deliberate repeats (3-value pool in half of the cases) and 'copied neighbourhoods' (2 or 4 adjacent keys "
+              "and the same values at a second place displaced by 1-2 drawn bits) make identical sub-tries under different edges frequent "
+              "(labels duplicate-subtrie, duplicate-subtrie-under-different-edges); every case also proves 2-8 keys into ONE shared node set "
+              "(as the RPC and GetRangeProof do) and verifies each key against it with VerifyProof and the independent walker; honest range "
+              "proofs must be walkable to both boundary keys; the RPC chains get, in half of the cases, a hand-built final block writing equal "
+              "values to adjacent slots at two places of one contract, whose slots are then requested together. "
+              "TestPropTrieProofs: key sets over a pool (height 251: universe stems or dense low-bit subtrees with branches; heights 8 and 3 "
               "exhaustive key space; Pedersen/Poseidon) on core/trie (committed, optionally reopened) and core/trie2 (fresh/hashed/persisted); "
               "queries present / pool / one-bit-flipped at a drawn depth / boundary; Prove output walked by an independent verifier from the "
               "ref.MPT root, VerifyProof must return model[k]; then one corruption of (root,key,proof) (hash/value flip, path bit, length, swap, "
